@@ -636,6 +636,10 @@ func (s *Spec) Walk(ctx context.Context, st *State, pendings []interface{}, c *C
 	// been called and (2) either verified the existence of an
 	// "error" node or addeded one.
 
+	if c == nil {
+		c = DefaultControl
+	}
+
 	walked := newWalked(c.Limit)
 
 	for i := 0; i < c.Limit; i++ {
